@@ -61,7 +61,7 @@ ASSUMPTIONS = [
 
 PREFIXES = (REPO.rstrip('/') + '/ombott/', echo.__file__.rsplit('/', 1)[0] + '/')
 KINDS = ['echo_get', 'echo_post', 'echo_head', 'upload', 'raise_err', 'raise_resp', 'teapot', 'crash', 'gen',
-         'notfound', 'notallowed', 'json404', 'badchunk', 'chunked_ok', 'big', 'badpath', 'echo_put', 'hookcrash', 'badchunk_json', 'badjson', 'goodjson', 'badchunk_sizeline', 'busy_str', 'limit_num', 'upload_typed', 'upload_plain', 'badmultipart', 'boom_fixed_url', 'fixed_get', 'fixed_post', 'fixed_fail', 'panel', 'public', 'session', 'charset', 'dated', 'reqerr', 'reqerr_json', 'filtered']
+         'notfound', 'notallowed', 'json404', 'badchunk', 'chunked_ok', 'big', 'badpath', 'echo_put', 'hookcrash', 'badchunk_json', 'badjson', 'goodjson', 'badchunk_sizeline', 'busy_str', 'limit_num', 'upload_typed', 'upload_plain', 'badmultipart', 'boom_fixed_url', 'fixed_get', 'fixed_post', 'fixed_fail', 'panel', 'public', 'session', 'charset', 'dated', 'reqerr', 'reqerr_json', 'filtered', 'lazy_badchunk', 'lazy_big', 'lazy_ok']
 CHARSETS = ['latin1', 'utf-16-le', 'utf-8', 'cp1252', 'iso-8859-15']
 _MARK = re.compile(r'Z\d+z')
 
@@ -190,6 +190,18 @@ def environ_of(spec):
         path = '/busy/' + m
     elif kind == 'dated':
         path = '/dated/' + m
+    elif kind in ('lazy_badchunk', 'lazy_big', 'lazy_ok'):
+        # a streaming handler that reads the body inside its generator: malformed chunked / over the limit / fine
+        method, path = 'POST', '/lazybody/' + m
+        if kind == 'lazy_badchunk':
+            body = b'5\r\n' + m.encode()[:3]
+            kw = {'chunked': True}
+        elif kind == 'lazy_big':
+            body = (m * 900).encode()
+            kw = {'content_length': len(body)}
+        else:
+            body = ('ok-' + m).encode()
+            kw = {'content_length': len(body)}
     elif kind == 'filtered':
         path = '/u/%s/p/%d/seg/%s/x/end' % (m, int(m[1:-1]) + 100, m)
     elif kind in ('reqerr', 'reqerr_json'):
